@@ -10,6 +10,7 @@ for id in $ids; do
   prop=${id:0:3}
   out=$(VERIF_SEED=${VERIF_SEED:-1} ./check $prop --tier quick 2>&1); rc=$?
   git -C /repo checkout -- .
+  git -C /verif checkout -- evidence/$prop.json 2>/dev/null   # evidence of a run against a seeded change is never kept
   v=$(echo "$out" | grep '^VIOLATION' | grep -v no-failing-input-found | head -1); [ -z "$v" ] && v=$(echo "$out" | grep -m1 '^VIOLATION' || echo "-")
   rp=$(echo "$v" | sed -n 's/.*replay=\([^ ]*\).*/\1/p')
   how=$(python3 - "$rp" <<'PY'
